@@ -7,5 +7,28 @@ let handle = function
       String.concat "" (List.map (fun x -> let l = bytes_of_hex x in b2s (check_ref_format l) ^ b2s (git_check_refname_format l))
                           (String.split_on_char ',' s))
   | ["refname"; s] -> b2s (check_refname (bytes_of_hex s))
+  | ["refs"; ops] ->
+      (* ops separated by ';', fields by ':'.  After each op: result letter and a dump of every visible ref *)
+      let st = ref disk_init in
+      let opt s = if s = "NONE" then None else Some (bytes_of_hex s) in
+      let dump () =
+        let ns = List.sort_uniq compare (List.map hex_of_bytes (names (!st).loose @ names (!st).packed)) in
+        String.concat "," (List.filter_map (fun h ->
+          match dread !st (bytes_of_hex h) with
+          | Some (Sha v) -> Some (h ^ "=S" ^ hex_of_bytes v)
+          | Some (Sym t) -> Some (h ^ "=Y" ^ hex_of_bytes t)
+          | None -> None) ns) in
+      String.concat "|" (List.map (fun o ->
+        let op = match String.split_on_char ':' o with
+          | ["set"; n; old; nw] -> OSet (bytes_of_hex n, opt old, bytes_of_hex nw)
+          | ["add"; n; v] -> OAdd (bytes_of_hex n, bytes_of_hex v)
+          | ["del"; n; old] -> ODel (bytes_of_hex n, opt old)
+          | ["sym"; n; t] -> OSym (bytes_of_hex n, bytes_of_hex t)
+          | ["pack"; a] -> OPack (a = "1")
+          | _ -> failwith "op" in
+        let (s', r) = rstep !st op in
+        st := s';
+        (match r with RTrue -> "T" | RFalse -> "F" | RExc -> "E") ^ " " ^ (let d = dump () in if d = "" then "_" else d))
+        (String.split_on_char ';' ops))
   | _ -> "EXN bad request"
 let () = serve handle
